@@ -573,12 +573,15 @@ class MemorizedFunc(Logger):
         # 3-tuple property containing: the function source code, source file,
         # and first line of the code inside the source file
         if hasattr(self.func, "__code__"):
+            # _func_code_id identifies the code object the cached source
+            # belongs to. It is a reference to that object, not its id():
+            # the id of a collected code object can be reused by the next one.
             if self._func_code_id is None:
-                self._func_code_id = id(self.func.__code__)
-            elif id(self.func.__code__) != self._func_code_id:
+                self._func_code_id = self.func.__code__
+            elif self.func.__code__ is not self._func_code_id:
                 # Be robust to dynamic reassignments of self.func.__code__
                 self._func_code_info = None
-                self._func_code_id = id(self.func.__code__)
+                self._func_code_id = self.func.__code__
 
         if self._func_code_info is None:
             # Cache the source code of self.func . Provided that get_func_code
@@ -625,7 +628,7 @@ class MemorizedFunc(Logger):
         state = self.__dict__.copy()
         state["timestamp"] = None
 
-        # Invalidate the code id as id(obj) will be different in the child
+        # The code object is not sent: the child has its own
         state["_func_code_id"] = None
 
         return state
